@@ -237,6 +237,35 @@ Theorem C14_scalar_mul_window_correct :
 Proof. exact @scalar_mul_window_correct. Qed.
 Print Assumptions C14_scalar_mul_window_correct.
 
+(* MultiScalarMulLowLevel (naive path for n <= 7, bucket path with running sums above):
+   sum_i n_i * P_i for EVERY vector length, 0 included (the identity); None — the code panics —
+   exactly when the two vectors have different lengths *)
+Theorem C14_msm_correct :
+  forall (G : Type) (zero : G) (add : G -> G -> G) (dbl : G -> G) (is_zero : G -> bool),
+  (forall x y z : G, add x (add y z) = add (add x y) z) ->
+  (forall x y : G, add x y = add y x) ->
+  (forall x : G, add zero x = x) ->
+  (forall x : G, dbl x = add x x) ->
+  (forall x : G, is_zero x = true -> x = zero) ->
+  forall (ps : list G) (ss : list (list N)), Forall bytes_ok ss ->
+  msm zero add dbl is_zero ps ss =
+  if Nat.eqb (length ps) (length ss) then Some (wsumf zero add le_value ps ss) else None.
+Proof. exact @msm_correct. Qed.
+Print Assumptions C14_msm_correct.
+
+(* the bucket path alone, for every vector length and every window width w > 0 *)
+Theorem C14_msm_buckets_correct :
+  forall (G : Type) (zero : G) (add : G -> G -> G) (dbl : G -> G) (is_zero : G -> bool),
+  (forall x y z : G, add x (add y z) = add (add x y) z) ->
+  (forall x y : G, add x y = add y x) ->
+  (forall x : G, add zero x = x) ->
+  (forall x : G, dbl x = add x x) ->
+  (forall x : G, is_zero x = true -> x = zero) ->
+  forall (ps : list G) (ss : list (list N)) (w : N), Forall bytes_ok ss -> (0 < w)%N ->
+  msm_buckets zero add is_zero ps ss w = wsumf zero add le_value ps ss.
+Proof. exact @msm_buckets_correct. Qed.
+Print Assumptions C14_msm_buckets_correct.
+
 (* ---- non-vacuity: a concrete field, curve and points meet every hypothesis ---------------------- *)
 
 (* F_7, y^2 = x^3 + 2 (no root of x^3 + 2, characteristic 7), P = (3,1), Q = (0,3) *)
@@ -272,8 +301,11 @@ Example C14_scalar_mul_hypotheses_satisfiable :
   (forall x y z : N, N.add x (N.add y z) = N.add (N.add x y) z) /\
   (forall x y : N, N.add x y = N.add y x) /\ (forall x : N, N.add 0 x = x) /\
   bytes_ok [5%N; 1%N] /\
-  scalar_mul_window 0%N N.add (fun x => N.add x x) 3%N [5%N; 1%N] = (261 * 3)%N.
+  scalar_mul_window 0%N N.add (fun x => N.add x x) 3%N [5%N; 1%N] = (261 * 3)%N /\
+  msm 0%N N.add (fun x => N.add x x) (N.eqb 0) [1; 2; 3; 4; 5; 6; 7; 8; 9]%N
+      [[1]; [2; 1]; []; [255]; [0; 0; 1]; [7]; [0]; [3]; [200; 200]]%N =
+  Some (1 * 1 + 2 * 258 + 3 * 0 + 4 * 255 + 5 * 65536 + 6 * 7 + 7 * 0 + 8 * 3 + 9 * 51400)%N.
 Proof.
   split; [intros; apply N.add_assoc|]. split; [intros; apply N.add_comm|].
-  split; [intros; reflexivity|]. split; [repeat constructor|]. reflexivity.
+  split; [intros; reflexivity|]. split; [repeat constructor|]. split; vm_compute; reflexivity.
 Qed.
